@@ -129,6 +129,28 @@ func (bp *bprover) lb(v ssa.Value, at *ssa.BasicBlock, d int) (int64, bool) {
 				upd(k)
 			}
 		}
+		if bi, ok := x.Call.Value.(*ssa.Builtin); ok && (bi.Name() == "min" || bi.Name() == "max") && len(x.Call.Args) > 0 {
+			// min: the least of the arguments' lower bounds (all needed); max: the greatest of those known
+			lo, all, hi, any := int64(0), true, int64(0), false
+			for i, a := range x.Call.Args {
+				if k, ok := bp.lb(a, at, d+1); ok {
+					if i == 0 || k < lo {
+						lo = k
+					}
+					if !any || k > hi {
+						hi, any = k, true
+					}
+				} else {
+					all = false
+				}
+			}
+			if bi.Name() == "min" && all {
+				upd(lo)
+			}
+			if bi.Name() == "max" && any {
+				upd(hi)
+			}
+		}
 		// summary functions returning a bounded index
 		if _, callee := calleeOf(x); callee != nil && inModule(callee) && len(x.Call.Args) == 1 {
 			if bp.summaryIndexOfArg(callee) {
@@ -317,6 +339,34 @@ func (bp *bprover) summaryIndexOfArg(fn *ssa.Function) bool {
 		r := ret.Results[0]
 		if arg, ok := isLenOf(r); ok && stripConv(arg) == ssa.Value(par) {
 			continue
+		}
+		// the result of a library search over the parameter, returned only where it was found (≥ 0): an index < len
+		if call, ok := stripConv(r).(*ssa.Call); ok {
+			n, _ := calleeOf(call)
+			if (n == "bytes.IndexByte" || n == "strings.IndexByte" || n == "bytes.Index" || n == "strings.Index") && len(call.Call.Args) >= 1 && stripConv(call.Call.Args[0]) == ssa.Value(par) {
+				found := domEdge(fn, b, func(cond ssa.Value) (bool, bool) {
+					cb, ok := cond.(*ssa.BinOp)
+					if !ok || stripConv(cb.X) != ssa.Value(call) {
+						return false, false
+					}
+					k, isC := constInt(cb.Y)
+					if !isC {
+						return false, false
+					}
+					switch {
+					case cb.Op == token.GEQ && k == 0, cb.Op == token.GTR && k == -1, cb.Op == token.NEQ && k == -1:
+						return true, true
+					case cb.Op == token.LSS && k == 0, cb.Op == token.LEQ && k == -1, cb.Op == token.EQL && k == -1:
+						return true, false
+					}
+					return false, false
+				})
+				if found {
+					bp.assume[n+" returns an index < len(s) or -1"] = true
+					continue
+				}
+			}
+			return false
 		}
 		// range loop: the index is i = φ(-1, i)+1, returned under the guard i < len(par)
 		if bo, ok := stripConv(r).(*ssa.BinOp); ok && bo.Op == token.ADD {
@@ -539,6 +589,21 @@ func (bp *bprover) leLen(h, x ssa.Value, at *ssa.BasicBlock, d int) bool {
 			}
 		}
 	case *ssa.Call:
+		if bi, ok := v.Call.Value.(*ssa.Builtin); ok && (bi.Name() == "min" || bi.Name() == "max") {
+			// min(…) ≤ len(x) if one argument is; max(…) ≤ len(x) if all are
+			any, all := false, len(v.Call.Args) > 0
+			for _, a := range v.Call.Args {
+				if bp.leLen(a, x, at, d+1) {
+					any = true
+				} else {
+					all = false
+				}
+			}
+			if bi.Name() == "min" {
+				return any
+			}
+			return all
+		}
 		if _, callee := calleeOf(v); callee != nil && inModule(callee) && len(v.Call.Args) == 1 && bp.sameVal(v.Call.Args[0], x) && bp.summaryIndexOfArg(callee) {
 			return true
 		}
